@@ -48,7 +48,7 @@ func (m *master) spawn(id int) (*worker, error) {
 	if m.race {
 		w.curPath = filepath.Join(m.workDir, fmt.Sprintf("cur.%d", id))
 		w.logBase = filepath.Join(m.workDir, fmt.Sprintf("race.%d", id))
-		cmd.Env = append(cmd.Env, "VERIF_CURFILE="+w.curPath, "GORACE=halt_on_error=1 exitcode=66 log_path="+w.logBase)
+		cmd.Env = append(cmd.Env, "VERIF_CURFILE="+w.curPath, "GORACE=halt_on_error=1 atexit_sleep_ms=0 exitcode=66 log_path="+w.logBase)
 	}
 	in, err := cmd.StdinPipe()
 	if err != nil {
